@@ -11,6 +11,8 @@ from native.layout import SCHEMAS
 EXTRA = [
     'struct A { a @0: f32, b @1: i7, c @2: f64, }\nimpl can for A { id: 3, }' if False else 'struct A { a @0: f32, b @1: i7, c @2: u8, }\nimpl can for A { id: 3, }',
     'struct A { a @0: u64, b @1: u1, }\nimpl can for A { id: 4, }',
+    'struct A { d @0: f64, }\nimpl can for A { id: 7, }',
+    'struct A { a @0: u8, f @1: f32, b @2: i9, }\nimpl can for A { id: 8, }',
     'struct A { a @0: u8, s @1: str, }\nimpl can for A { id: 5, }',
     'struct A { a @0: u8, o @1: Optional[u8], }\nimpl can for A { id: 5, }',
     'struct I { o @0: Optional[u16], }\nstruct A { a @0: u8, i @1: I, }\nimpl can for A { id: 5, }',
